@@ -12,11 +12,7 @@ import sys
 from gen_all import GenError, src, strip_comments, write_if_changed
 
 
-def fn_body(text, header_regex, what):
-    m = re.search(header_regex, text)
-    if not m:
-        raise GenError("function not found: %s" % what)
-    i = text.index("{", m.end() - 1) if text[m.end() - 1] != "{" else m.end() - 1
+def _block_from(text, i, what):
     depth = 0
     j = i
     while j < len(text):
@@ -29,6 +25,94 @@ def fn_body(text, header_regex, what):
                 return text[i + 1 : j]
         j += 1
     raise GenError("unbalanced braces in %s" % what)
+
+
+def _split_top(sx):
+    out, d, cur = [], 0, ""
+    for ch in sx:
+        if ch in "([{<":
+            d += 1
+        elif ch in ")]}>":
+            d -= 1
+        if ch == "," and d == 0:
+            out.append(cur.strip())
+            cur = ""
+        else:
+            cur += ch
+    if cur.strip():
+        out.append(cur.strip())
+    return out
+
+
+def _paren_end(text, i):
+    """index of the parenthesis matching the one at i"""
+    d, j = 0, i
+    while j < len(text):
+        if text[j] == "(":
+            d += 1
+        elif text[j] == ")":
+            d -= 1
+            if d == 0:
+                return j
+        j += 1
+    raise GenError("unbalanced parentheses")
+
+
+def inline_private_helpers(text, body, what, rounds=2):
+    """tolerance for the most common harmless rewrite: part of the function moved into a private helper.
+    A helper is a plain `fn` (not `pub`) of the same file that is called exactly once in the whole file, from
+    this body; its body — with `self` replaced by the receiver of the call and each parameter by the argument
+    expression — is spliced in right after the call, so the markers keep their relative order."""
+    done = set()
+    for _ in range(rounds):
+        changed = False
+        for m in re.finditer(r"\n\s*fn (\w+)\s*(?:<[^>]*>)?\(", text):
+            name = m.group(1)
+            if name in done:
+                continue
+            rx = r"(?:(?P<recv>[\w\.]+)\.|Self::|(?<![\w\.:]))%s\(" % re.escape(name)
+            calls_file = [c for c in re.finditer(rx, text) if not text[:c.start()].rstrip().endswith("fn")]
+            calls_body = list(re.finditer(rx, body))
+            if len(calls_file) != 1 or len(calls_body) != 1:
+                continue
+            try:
+                pe = _paren_end(text, m.end() - 1)
+                params = _split_top(text[m.end():pe])
+                hb = _block_from(text, text.index("{", pe), what + "/" + name)
+                c = calls_body[0]
+                ce = _paren_end(body, c.end() - 1)
+                args = _split_top(body[c.end():ce])
+            except (GenError, ValueError):
+                continue
+            pnames = []
+            has_self = False
+            for prm in params:
+                if re.fullmatch(r"&?\s*(?:mut\s+)?self", prm.replace("'_ ", "")) or re.fullmatch(r"&'\w+\s+(?:mut\s+)?self", prm):
+                    has_self = True
+                else:
+                    pnames.append(re.sub(r"^mut\s+", "", prm.split(":")[0].strip()))
+            if len(pnames) != len(args):
+                continue
+            sub = hb
+            if has_self and c.group("recv"):
+                sub = re.sub(r"(?<![\w\.])self(?![\w])", c.group("recv"), sub)
+            for pn, a in zip(pnames, args):
+                a = re.sub(r"^&(?:mut\s+)?", "", a)
+                sub = re.sub(r"(?<![\w\.])%s(?![\w])" % re.escape(pn), a.replace("\\", "\\\\"), sub)
+            body = body[: ce + 1] + " /*inlined %s*/ { " % name + sub + " } " + body[ce + 1 :]
+            done.add(name)
+            changed = True
+        if not changed:
+            break
+    return body
+
+
+def fn_body(text, header_regex, what):
+    m = re.search(header_regex, text)
+    if not m:
+        raise GenError("function not found: %s" % what)
+    i = text.index("{", m.end() - 1) if text[m.end() - 1] != "{" else m.end() - 1
+    return inline_private_helpers(text, _block_from(text, i, what), what)
 
 
 def scan(body, table, what, once=()):
